@@ -124,3 +124,23 @@ Qed.
 Print Assumptions C01_translated_search_results_is_image_of_heap.
 Print Assumptions C01_translated_exhaustive_results_report_legal_groups.
 Print Assumptions C01_translated_greedy_results_report_legal_groups.
+
+From Coq Require Import PrimFloat.
+(* non-vacuity: on a concrete instance (4 geos of mixed types, float arithmetic, scores = number of control geos)
+   the translated searches, run inside Coq, return designs -- with geo IDs, as the caller receives them *)
+Local Open Scope nat_scope.
+Example C01_translated_searches_example :
+  let es := [ {|ec:=true;et:=true;ex:=true|}; {|ec:=true;et:=false;ex:=false|}; {|ec:=false;et:=true;ex:=true|};
+              {|ec:=true;et:=true;ex:=false|} ] in
+  let par := {| p_treatment_geos_range := None; p_control_geos_range := None; p_geo_ratio_tolerance := None;
+                p_volume_ratio_tolerance := None; p_treatment_share_range := None; p_budget_range := None;
+                p_n_geos_max := None; p_n_designs := 2; p_iroas := 1%float |} in
+  let shareS := fun s : set => float_of_Z (Z.of_nat (length s)) in
+  let bud := fun T C : set => 1%float in
+  let key := fun T C : set => Z.of_nat (length C) in
+  let ids := fun r => map (fun o : Z * (list nat * list nat) * (set * set) => snd (fst o)) (ids_of (fun i => (10 + i)%nat) r) in
+  ids (gen_exhaustive_search FloatOps Z.ltb (assignments_of es) par shareS shareS bud key (fun k _ => k))
+    = [([12], [11; 13; 10]); ([10], [11; 13])]
+  /\ option_map ids (gen_greedy_search FloatOps Z.ltb (assignments_of es) par shareS bud key 0%Z 50)
+    = Some [([12], [10; 11; 13]); ([12; 10], [11; 13])].
+Proof. vm_compute. split; reflexivity. Qed.
